@@ -1,7 +1,7 @@
 (* C08 — Every reachable state is a physical quantum state.
    Only statements closed by [exact]; proofs live in C08/. *)
 From Coq Require Import Reals List.
-From PV Require Import C08.PhysModel C08.PhysProofs C08.FockRunModel C08.FockProofs.
+From PV Require Import C08.PhysModel C08.PhysProofs C08.FockRunModel C08.FockProofs C08.GdyneProofs.
 Import ListNotations.
 Open Scope R_scope.
 
@@ -38,6 +38,19 @@ Theorem C08_symplectic_matrix_form : forall d S,
      fcong ROps (2 * d) S (omegaF ROps) i j = omegaF ROps i j) -> symplF d S.
 Proof. exact symplF_of_matrix. Qed.
 Print Assumptions C08_symplectic_matrix_form.
+
+(* general-dyne conditional state (block form of _get_generaldyne_evolved_state):
+   [[A + i hbar Omega, C],[C^T, B]] >= 0, B K = 1, K symmetric  ->  A - C K C^T is physical *)
+Theorem C08_generaldyne_conditional_phys : forall (d_o k : nat) (hbar : R) (A C B K : nat -> nat -> R),
+  symF (2 * d_o) A -> symF k K ->
+  (forall j l, (j < k)%nat -> (l < k)%nat -> fmul ROps k B K j l = fid ROps j l) ->
+  (forall uo vo um vm,
+     0 <= bil ROps (2 * d_o) A uo uo + bil ROps (2 * d_o) A vo vo - 2 * hbar * omg ROps d_o uo vo
+          + 2 * (bilr (2 * d_o) k C uo um + bilr (2 * d_o) k C vo vm)
+          + (bil ROps k B um um + bil ROps k B vm vm)) ->
+  PhysF d_o hbar (schur k A C K).
+Proof. exact generaldyne_conditional_phys. Qed.
+Print Assumptions C08_generaldyne_conditional_phys.
 
 (* ---- Fock side *)
 (* diagonal gates with unit-modulus coefficients leave every probability, hence the norm, unchanged *)
